@@ -909,6 +909,39 @@ def composed(rng, n):
     return out
 
 
+def wide(rng, n=3):
+    """Bit-field groups and array elements wider than 32 bits (40 / 48 / 56 / 64), with fields that straddle bits
+    31 / 32 and 8-bit boundaries, scalars and enums; both byte orders.  The main generator prefers the four
+    narrowest group widths, so these are rare there."""
+    out = []
+    for i in range(n):
+        e = rng.choice(["little", "big"]) + "_endian_packets\n\n"
+        decls = ["enum Ew%d : %d {\n  A = 0,\n  B = 1,\n  Z = ..\n}\n" % (i, rng.choice([33, 40, 48]))]
+        packets = []
+        for k in range(3):
+            total = rng.choice([40, 48, 56, 64])
+            cuts = sorted(rng.sample(range(1, total), rng.choice([1, 2, 3])))
+            ws, prev = [], 0
+            for c in cuts + [total]:
+                ws.append(c - prev)
+                prev = c
+            fs = []
+            for j, w in enumerate(ws):
+                r = rng.random()
+                if r < 0.7:
+                    fs.append("w%d_%d_%d: %d" % (i, k, j, w))
+                elif r < 0.85:
+                    fs.append("_reserved_: %d" % w)
+                else:
+                    fs.append("_fixed_ = %d: %d" % (rng.randrange(1 << w), w))
+            tail = rng.choice([[], ["t%d_%d: 8" % (i, k)], ["x%d_%d: %d[]" % (i, k, rng.choice([40, 48, 56, 64]))],
+                               ["y%d_%d: %d[2]" % (i, k, rng.choice([40, 64]))]])
+            packets.append("packet Wd%d_%d {\n  %s\n}\n" % (i, k, ",\n  ".join(fs + tail)))
+        packets.append("packet We%d {\n  e: Ew%d,\n  %s\n}\n" % (i, i, "r: %d" % ((-int(decls[0].split(": ")[1].split(" ")[0])) % 8 or 8)))
+        out.append(e + "\n".join(decls + packets))
+    return out
+
+
 def recursive_descriptions(rng):
     """Legal recursion: a cycle of declarations is allowed when it goes through an array without static
     size (nested TLV patterns).  Returned in one declaration order; the check permutes them."""
